@@ -743,3 +743,17 @@ func init() {
 		return false
 	}
 }
+
+func init() {
+	ident := func(fr *frame, fn *ssa.Function, a []value) value { return a[0] }
+	intrinsics["strings.Clone"] = ident
+	intrinsics["internal/stringslite.Clone"] = ident
+	intrinsics["strconv.cloneString"] = ident
+	intrinsics["bytes.Clone"] = func(fr *frame, fn *ssa.Function, a []value) value {
+		b := a[0].([]value)
+		if b == nil {
+			return b
+		}
+		return append([]value{}, b...)
+	}
+}
